@@ -160,6 +160,8 @@ class AntsSpec(Spec):
         if ex and "model" in ex:
             ctx["coverage"]["monitor_overflow_lines"] = sum(1 for m in ex["model"] if m.startswith("ok overflow"))
             ctx["coverage"]["monitor_unchecked_lines"] = sum(1 for m in ex["model"] if m.startswith("ok unchecked"))
+            ctx["coverage"]["monitor_por_miss_lines"] = sum(1 for m in ex["model"] if m.startswith("ok por-miss"))
+            ctx["coverage"]["stress_timeouts"] = sum(1 for m in ex.get("impl", []) if m.startswith("stress timeout"))
         funcs = (ctx.get("facts") or {}).get("funcs", {})
         if not any(k.startswith("ants.") for k in funcs):
             return
